@@ -133,6 +133,13 @@ func detBundle(rng *rand.Rand) *jBundle {
 			{Topic: &jTopic{Name: name, Type: "publish", Messages: []*jTopicMsg{{Name: "Post" + name, Fields: []*jF{fld("name", tScalar(kString))}}}}},
 		}})
 	}
+	// two imported packages whose derived short alias is the same: which one a short reference means is decided by
+	// the order of the import statements, never by chance
+	for _, v := range []string{"v1", "v2"} {
+		b.Files = append(b.Files, &jFile{Path: "bill/ledger/" + v + "/entry.j5s", Pkg: "bill.ledger." + v, Elems: []*jElem{objDecl("Entry", fld("in"+strings.ToUpper(v), tScalar(kString)))}})
+	}
+	f.Imports = append(f.Imports, &jImport{Path: "bill.ledger.v1"}, &jImport{Path: "bill.ledger.v2"})
+	f.Elems = append(f.Elems, objDecl("LedgerUser", fld("entry", tRef(kObject, "ledger.Entry", "bill.ledger.v2.Entry")), fld("entries", tArr(tRef(kObject, "ledger.Entry", "bill.ledger.v2.Entry")))))
 	// a stale copy of a generated file that was committed beside its source: the file source lists it, the
 	// compiler is expected to keep ignoring it whatever the listing order
 	b.Protos[f.Path+".proto"] = "syntax = \"proto3\";\n\npackage " + f.Pkg + ";\n\n// left over from an earlier build\nmessage StaleLeftover {\n  string was_here = 1;\n}\n"
@@ -258,6 +265,79 @@ func c14Check(c *rt.C, b *jBundle, id string) map[string]string {
 
 func runC14(r *rt.Runner) {
 	// --- every worker process compiles the same fixed bundles; digests are compared across processes ---
+	// (first in every process: nothing else has been compiled yet, so what a process-wide leftover of one version does to
+	// the next shows within the process and, the orders being opposite, between odd and even processes)
+	// --- "what else was compiled earlier in the same process": two versions of a package with the same type
+	// names but different nesting, so that the text of a reference depends on the version; compiled and
+	// printed in alternation, and in opposite order in odd and even worker processes
+	r.DoAll("earlier-compiles", func(c *rt.C) {
+		version := func(nestedFoo bool, twist string, stampRequired bool) *jBundle {
+			nestedName := "Bar"
+			if nestedFoo {
+				nestedName = "Foo"
+			}
+			return elemsBundle(
+				objDecl("Foo", fld("name", tScalar(kString))),
+				enumDecl("Kind", "ONE", "TWO"),
+				objDecl("Outer",
+					fld("ref", tRef(kObject, "Foo", "iso.v1.Foo")),
+					fld("refs", tArr(tRef(kObject, "Foo", "iso.v1.Foo"))),
+					fld("kind", tRef(kEnum, "Kind", "iso.v1.Kind")),
+					// timestamps with rules: optional ones in every version, one that is required in the first and the last version only
+					fld("seen", tScalar(kTimestamp).with(func(t *jT) { t.Rules = &jRules{SExMin: pB(true)} })),
+					&jF{Name: "stamp", T: tScalar(kTimestamp).with(func(t *jT) { t.Rules = &jRules{SExMin: pB(true)} }), Req: stampRequired},
+					fld("later", tScalar(kTimestamp).with(func(t *jT) { t.Rules = &jRules{SExMax: pB(true)} })),
+					fld("inner", &jT{Kind: kObject, InlineName: nestedName, Inline: &jDecl{Kind: kObject, Fields: []*jF{fld("x", tScalar(kString)), fld(twist, tScalar(kBool))}}})))
+		}
+		versions := []*jBundle{version(true, "alpha", true), version(false, "alpha", false), version(true, "beta", false), version(false, "beta", true)}
+		order := []int{0, 1, 2, 3, 1, 0, 3, 2, 0}
+		if r.Cfg.Shard%2 == 1 {
+			order = []int{1, 0, 3, 2, 0, 1, 2, 3, 1}
+		}
+		first := map[int]map[string]c14Digest{}
+		for step, vi := range order {
+			b := versions[vi]
+			src := b.sources()
+			if step == 0 && r.Arg("show", "") == "earlier" {
+				fmt.Printf("SHOW %s\n", bundleBytes(src))
+			}
+			got, err := c14Compile(newMemBundle(src), b.packages(), false, nil)
+			if err != nil {
+				c.Feature("c14:compile-failed/earlier-compiles/" + errSig(err))
+				return
+			}
+			if step < 2 && r.Arg("show", "") == "earlier" {
+				for k, d := range got {
+					fmt.Printf("SHOWTEXT %s\n%s\n", k, d.rawText)
+				}
+			}
+			c.Eval(rt.Hash("earlier", fmt.Sprint(step, vi)), true)
+			c.Event("configurations_compiled")
+			if first[vi] == nil {
+				first[vi] = got
+				continue
+			}
+			for k, d := range got {
+				if d.desc != first[vi][k].desc {
+					c.Violate("nondeterministic/descriptor/after-other-version", fmt.Sprintf("%s of version %d compiles to different descriptors once other versions of the package were compiled in the process", k, vi), srcDetail(src))
+				}
+				if d.text != first[vi][k].text {
+					det := srcDetail(src)
+					det["first"], det["later"] = first[vi][k].rawText, d.rawText
+					c.Violate("nondeterministic/text/after-other-version", fmt.Sprintf("%s of version %d prints differently once other versions of the package were compiled in the process: %s", k, vi, firstDiff(first[vi][k].rawText, d.rawText)), det)
+				}
+			}
+		}
+		// and across processes, which ran the versions in opposite orders
+		for vi := range versions {
+			var parts []string
+			for _, k := range rt.SortedKeys(first[vi]) {
+				parts = append(parts, k+"="+first[vi][k].text[:12])
+			}
+			r.Note(fmt.Sprintf("xproc:c14-earlier-version-%d", vi), strings.Join(parts, " "))
+		}
+		c.Feature("c14:earlier-compiles")
+	})
 	r.DoAll("xproc", func(c *rt.C) {
 		rng := rand.New(rand.NewSource(r.Cfg.Seed*7919 + 17))
 		var all []string
@@ -296,65 +376,6 @@ func runC14(r *rt.Runner) {
 			}
 			r.Note(fmt.Sprintf("xproc:c14-bundle-%02d", i), strings.Join(parts, " "))
 		}
-	})
-	// --- "what else was compiled earlier in the same process": two versions of a package with the same type
-	// names but different nesting, so that the text of a reference depends on the version; compiled and
-	// printed in alternation, and in opposite order in odd and even worker processes
-	r.DoAll("earlier-compiles", func(c *rt.C) {
-		version := func(nestedFoo bool, twist string) *jBundle {
-			nestedName := "Bar"
-			if nestedFoo {
-				nestedName = "Foo"
-			}
-			return elemsBundle(
-				objDecl("Foo", fld("name", tScalar(kString))),
-				enumDecl("Kind", "ONE", "TWO"),
-				objDecl("Outer",
-					fld("ref", tRef(kObject, "Foo", "iso.v1.Foo")),
-					fld("refs", tArr(tRef(kObject, "Foo", "iso.v1.Foo"))),
-					fld("kind", tRef(kEnum, "Kind", "iso.v1.Kind")),
-					fld("inner", &jT{Kind: kObject, InlineName: nestedName, Inline: &jDecl{Kind: kObject, Fields: []*jF{fld("x", tScalar(kString)), fld(twist, tScalar(kBool))}}})))
-		}
-		versions := []*jBundle{version(true, "alpha"), version(false, "alpha"), version(true, "beta"), version(false, "beta")}
-		order := []int{0, 1, 2, 3, 1, 0, 3, 2, 0}
-		if r.Cfg.Shard%2 == 1 {
-			order = []int{1, 0, 3, 2, 0, 1, 2, 3, 1}
-		}
-		first := map[int]map[string]c14Digest{}
-		for step, vi := range order {
-			b := versions[vi]
-			src := b.sources()
-			got, err := c14Compile(newMemBundle(src), b.packages(), false, nil)
-			if err != nil {
-				c.Feature("c14:compile-failed/earlier-compiles/" + errSig(err))
-				return
-			}
-			c.Eval(rt.Hash("earlier", fmt.Sprint(step, vi)), true)
-			c.Event("configurations_compiled")
-			if first[vi] == nil {
-				first[vi] = got
-				continue
-			}
-			for k, d := range got {
-				if d.desc != first[vi][k].desc {
-					c.Violate("nondeterministic/descriptor/after-other-version", fmt.Sprintf("%s of version %d compiles to different descriptors once other versions of the package were compiled in the process", k, vi), srcDetail(src))
-				}
-				if d.text != first[vi][k].text {
-					det := srcDetail(src)
-					det["first"], det["later"] = first[vi][k].rawText, d.rawText
-					c.Violate("nondeterministic/text/after-other-version", fmt.Sprintf("%s of version %d prints differently once other versions of the package were compiled in the process: %s", k, vi, firstDiff(first[vi][k].rawText, d.rawText)), det)
-				}
-			}
-		}
-		// and across processes, which ran the versions in opposite orders
-		for vi := range versions {
-			var parts []string
-			for _, k := range rt.SortedKeys(first[vi]) {
-				parts = append(parts, k+"="+first[vi][k].text[:12])
-			}
-			r.Note(fmt.Sprintf("xproc:c14-earlier-version-%d", vi), strings.Join(parts, " "))
-		}
-		c.Feature("c14:earlier-compiles")
 	})
 	for _, cell := range isolationMatrix() {
 		cell := cell
